@@ -38,6 +38,8 @@ impl SchemaMut {
 		let mut state = WriteCanonicalFormState {
 			w: ErrorConversionWriter(String::new()),
 			named_type_written: vec![false; self.nodes.len()],
+			unnamed_type_being_written: vec![0; self.nodes.len()],
+			n_named_types_written: 0,
 		};
 		state.write_canonical_form(self, SchemaKey::from_idx(0))?;
 		Ok(state.w.0)
